@@ -1,7 +1,7 @@
 #!/bin/bash
 # usage: tryseed.sh <patch.diff> <prop> [<prop>...]  — apply a seeded change to /repo, run the quick checks, revert.
 set -u
-patch=$1; shift
+patch=$(readlink -f "$1"); shift
 cd /repo || exit 2
 if ! git diff --quiet; then echo "repo dirty"; exit 2; fi
 git apply "$patch" || { echo "patch does not apply"; exit 2; }
